@@ -57,6 +57,7 @@ def generate(rng: random.Random, tier: str, seed: int) -> dict:
           "mode": rng.choice(["file", "dir"]), "detail": rng.choice(harness.DETAILS), "launch_opt": opt,
           "attempt": rng.choice([1, 1, 2, 3]), "fail_at": rng.choice([None, None, 0, 1, 2, 3]),
           "fail_node": rng.randrange(len(base["nodes"])), "mut_seed": rng.getrandbits(32)}
+    sc["rs_file"] = rng.random() < 0.2
     sc["hashseed"] = rng.choice([1, 2, 3, 5, 6, 7, 11]) if (rsd["files"] or rng.random() < 0.15) else None
     return sc
 
@@ -83,11 +84,18 @@ def _launch(sc: dict, w, name: str, run_space: dict, *, opt: str, idem: str = "k
     base = sc["base"]
     harness.write_cli_config(base, f"{name}.yaml", trace=harness.trace_cfg(sc["mode"], sc["detail"], name), run_space=run_space)
     argv = ["run", f"{name}.yaml", "--run-space-attempt", str(sc["attempt"])]
+    if sc.get("rs_file") and name == "launch_rsfile":
+        # same plan, but the run space comes from a separate file given on the command line
+        import yaml
+        harness.write_cli_config(base, f"{name}.yaml", trace=harness.trace_cfg(sc["mode"], sc["detail"], name), run_space=None)
+        with open(f"{name}_rs.yaml", "w") as f:
+            f.write(yaml.safe_dump({"run_space": run_space}, sort_keys=False))
+        argv += ["--run-space-file", f"{name}_rs.yaml"]
     if opt == "explicit":
         argv += ["--run-space-launch-id", "launch-explicit-001"]
     elif opt == "idem":
         argv += ["--run-space-idempotency-key", idem]
-    plan = _plan(sc, f"{name}.yaml")
+    plan = _plan(sc, f"{name}.yaml") if not (sc.get("rs_file") and name == "launch_rsfile") else _plan(sc, "plan.yaml")
     plan_keys = set().union(*[set(r) for r in plan]) if plan else set()
     for k, v in base["context"].items():
         if k not in plan_keys:
@@ -349,6 +357,16 @@ def execute(sc: dict, seed: int) -> dict:
                 viols.append(oracles.V("inputs_id", "differs_across_processes", f"{where}; {inputs_id} vs {other['inputs_id']}"))
             if sc["launch_opt"] == "idem" and other["launch_id"] != launch_id:
                 viols.append(oracles.V("launch_id", "idempotency_key_not_reproducible_across_processes", f"{where}; {launch_id} vs {other['launch_id']}"))
+        if sc.get("rs_file"):
+            # "--run-space-file" is just another way to write the same plan: same spec id, same runs
+            Lf = _launch(sc, w, "launch_rsfile", rs, opt="generated")
+            sf = next((r for r in Lf["records"] if r.get("record_type") == "run_space_start"), {})
+            stats["probe.run_space_file_option"] = 1
+            if spec_id is not None and sf.get("run_space_spec_id") != spec_id:
+                viols.append(oracles.V("spec_id", "differs_with_run_space_file_option", f"{where}; {spec_id} vs {sf.get('run_space_spec_id')}"))
+            got = [_canon(ri["context"]) for ri in Lf["run_inputs"]]
+            if got != [_canon(c) for c in (want_ctx if fail_at is None else [dict(ctx0, **plan[i]) for i in range(n)])]:
+                viols.append(oracles.V("plan_order", "run_space_file_option", f"{where}; executed contexts differ when the run space is given by file"))
         mrng = random.Random(sc["mut_seed"])
         L2 = _launch(sc, w, "cosmetic", _cosmetic(rs, mrng), opt=sc["launch_opt"])
         s2 = next((r for r in L2["records"] if r.get("record_type") == "run_space_start"), {})
